@@ -151,7 +151,9 @@ func HevcSeqHeaderPayload(vps, sps, pps []byte) []byte {
 	p := []byte{0x1c, 0x00, 0, 0, 0}
 	rec := make([]byte, 23)
 	rec[0] = 1
-	rec[1] = sps[3]    // general profile space/tier/idc (approximation, opaque to lal)
+	if len(sps) > 3 {
+		rec[1] = sps[3] // general profile space/tier/idc (approximation, opaque to lal)
+	}
 	rec[21] = 0xfc | 3 // lengthSizeMinusOne = 3
 	rec[22] = 3        // numOfArrays
 	p = append(p, rec...)
